@@ -317,12 +317,14 @@ func init() {
 				}
 			}
 		}
+		x.bytePairBlocks(fns)
 		x.pairsFor(fns, both, 60000*x.scale)
 		x.equalPairs(fns, both, 60000*x.scale)
 		relC02(x)
 	}
 	props["C04"] = func(x *Ctx) {
 		fns := []string{"Compare", "EqualFold"}
+		x.bytePairBlocks(fns)
 		x.pairsFor(fns, both, 50000*x.scale)
 		x.equalPairs(fns, both, 50000*x.scale)
 		relC04(x, 60000*x.scale)
@@ -522,6 +524,47 @@ func (x *Ctx) everyCodePoint() {
 		}
 	}
 	x.note("every-code-point sweep: %d cases (step %d for caseless code points)", n, step)
+}
+
+// bytePairBlocks: two strings of equal length (8 .. 33, so that word-at-a-time, 16- and 32-byte block
+// code would be entered) that are fold-equal everywhere except at ONE position, where every pair of byte
+// values (a, b) stands: all 128 x 128 ASCII pairs at the first and last position of the first block, and
+// the pairs differing in exactly one bit (in particular the case bit 0x20 on non-letters) at every
+// position; plus high-byte pairs.  Comparisons must not take "differs only in the case bit" for "equal".
+func (x *Ctx) bytePairBlocks(fns []string) {
+	base := []byte("config_2 Value-7 [xyz] {QRS} 9@`~end")
+	n := 0
+	put := func(L, pos int, a, b byte) {
+		s := append([]byte{}, base[:L]...)
+		t := x.g.recase(s, false, 0.5)
+		if len(t) != L { // re-casing an ASCII string keeps its length unless K/S partners were drawn
+			t = append([]byte{}, s...)
+		}
+		s[pos], t[pos] = a, b
+		for _, fn := range fns {
+			x.eval(&Case{Fn: fn, S: s, T: t}, n%401 == 0)
+		}
+		n++
+	}
+	for _, L := range []int{8, 9, 15, 16, 17, 24, 32, 33} {
+		for _, pos := range []int{0, 7, L - 1} {
+			for a := 0; a < 128; a++ {
+				for b := 0; b < 128; b++ {
+					if L == 8 || L == 16 || (a^b)&(a^b-1) == 0 {
+						put(L, pos, byte(a), byte(b))
+					}
+				}
+			}
+		}
+		for pos := 0; pos < L; pos++ {
+			for a := 0; a < 256; a++ {
+				for bit := 0; bit < 8; bit++ {
+					put(L, pos, byte(a), byte(a^(1<<bit)))
+				}
+			}
+		}
+	}
+	x.note("byte-pair blocks: %d pairs of equal-length strings differing at one position", n)
 }
 
 // orbitPairs: for every folding orbit with more than one member, every ordered pair (a, b) of its
